@@ -13,8 +13,15 @@ P("C21",
              "answers the k-th accepted request (in order), goes to its source with RspTo = its ID and the right kind, carries "
              "the data of the last DataReady the lower unit returned for that request's own shadow id, the k-th shadow request "
              "carries that request's payload, and lower-unit responses are routed to the unique live transaction with that id. "
+             "Control verbs: a Tick that ends Paused leaves the table and all four data-port buffers untouched (c21_pause_freezes); "
+             "while not Enabled nothing is accepted and no shadow request is sent (c21_no_acceptance_unless_enabled); Drain is taken "
+             "silently and its acknowledgement is emitted only from Draining with an EMPTY table, to the remembered requester/ID, "
+             "leaving the component Paused (c21_drain_ack_only_when_empty); Reset empties exactly the table and the two incoming "
+             "buffers and forgets exactly the table's requests (c21_reset_discards_exactly); after a Reset, for any continuation, no "
+             "released response belongs to a discarded transaction and the later responses answer, in acceptance order and each with "
+             "the lower unit's result for its own shadow id, the requests accepted after the Reset (c21_reset_epoch). "
              "The tick-level model is compared exactly with the real component (all messages drained from Top and Bottom, "
-             "generated IDs relative to the generator, progress flag, transaction count) on every run.",
+             "generated IDs relative to the generator, progress flag, transaction count, control state, control responses and the Control outgoing-buffer length after every Tick) on every run; holds_on additionally checks on the observations alone that Paused ticks keep the transaction count, Draining ticks do not raise it, and every Drain / Reset acknowledgement was emitted by a Tick that ended Paused / Enabled with an empty table (emission ticks reconstructed from the buffer lengths).",
   level_note="c21_model_agreement_implies_property transfers c21_in_order to the observed Top traffic of every case on which the check succeeds. "
              "Trusted: Coq kernel + vm_compute; the Go harness (scripted requester and out-of-order lower unit); the hand-written "
              "model of middleware.go. Ghost fields (accepted list, released list, per-transaction recorded answers) are never read "
